@@ -40,7 +40,7 @@ type Seq struct {
 func (w *World) NewSeq(out *c.Out, cmd string, no int, r *c.Rng, p cdptypes.Params) *Seq {
 	ctx, _ := w.Base.CacheContext()
 	ctx = ctx.WithBlockHeight(w.Base.BlockHeight()).WithBlockTime(w.Base.BlockTime())
-	w.Keeper().SetParams(ctx, p)
+	kapp.SetParams(w.App, ctx, "cdp", &p, func() { w.Keeper().SetParams(ctx, p) })
 	gen := w.App.GetBankKeeper().GetSupply(ctx, "usdx").Amount.BigInt()
 	return &Seq{W: w, Ctx: ctx, R: r, Out: out, Cmd: cmd, P: p, PStr: w.ParamsString(p, gen), GenUsdx: gen,
 		Tol: make([]int64, len(Types)), No: no}
